@@ -31,16 +31,16 @@ const (
 )
 
 type Value struct {
-	K     vkind
-	C     constant.Value
-	L     *Lin
-	Tag   string
-	Data  any
-	Tup   []Value
-	Lit   *ast.FuncLit
-	FnObj *types.Func
-	T     types.Type // static type of the expression that produced the value, when known
-	Recv  *Value     // receiver of a bound method value (x.m taken as a value)
+	K      vkind
+	C      constant.Value
+	L      *Lin
+	Tag    string
+	Data   any
+	Tup    []Value
+	Lit    *ast.FuncLit
+	FnObj  *types.Func
+	T      types.Type // static type of the expression that produced the value, when known
+	Recv   *Value     // receiver of a bound method value (x.m taken as a value)
 	Fields map[string]Value
 }
 
